@@ -931,6 +931,106 @@ func hostile(r *ev.Run, srv *dohmem.Server) {
 		}
 		srv.Zone = z.answer
 	}
+	// round 14: a response WITHOUT a question section (QDCOUNT 0: the header-only reply servers send with FORMERR, SERVFAIL,
+	// NOTIMP, REFUSED, and some with NXDOMAIN) carries its rcode like any other: the outcome of Resolve is the one of the same
+	// rcode with the question echoed - on the HTTPS lookup, on the address lookups, on both
+	for _, rc := range []int{1, 2, 3, 4, 5, 9, 16 + 3} {
+		for _, where := range []string{"https", "addresses", "all"} {
+			var ref string
+			for vi, noq := range []bool{false, true} {
+				srv.Reset()
+				srv.Zone = func(name string, t uint16) dohmem.Answer {
+					if name != "hq.example" {
+						return dohmem.Answer{}
+					}
+					bad := dohmem.Answer{RCode: rc, NoQuestion: noq}
+					switch {
+					case t == 65 && where != "addresses":
+						return bad
+					case t != 65 && where != "https":
+						return bad
+					case t == 65:
+						return dohmem.Answer{Records: []dnsref.RR{{Name: name, Type: 65, Class: 1, TTL: 60, Fields: dnsref.SVCB(1, "", []dnsref.Param{dnsref.ParamECH([]byte{0xec, 1})})}}}
+					case t == 1:
+						return dohmem.Answer{Records: []dnsref.RR{{Name: name, Type: 1, Class: 1, TTL: 60, Fields: []dnsref.Field{{Raw: []byte{10, 6, 0, 1}}}}}}
+					}
+					return dohmem.Answer{}
+				}
+				res, _ := ech.NewResolver("https://doh.test/dns-query")
+				got, err := res.Resolve(context.Background(), "hq.example")
+				sig := fmt.Sprintf("err=%v nx=%v %s", err != nil, errors.Is(err, ech.ErrNonExistentDomain), resultKey(got))
+				oc := "rcode read with or without a question section"
+				if vi == 0 {
+					ref = sig
+				} else if sig != ref {
+					oc = "rcode depends on the question section"
+					r.Violation(fmt.Sprintf("rcode-depends-on-question-section:%s:%d", where, rc), fmt.Sprintf("rcode %d on the %s lookup(s): with the question echoed %s; as a reply without question section %s", rc, where, ref, sig), rc)
+				}
+				r.Eval(fmt.Sprintf("no-question:%d:%s:%v", rc, where, noq), oc)
+			}
+		}
+		srv.Zone = z.answer
+	}
+	// round 14: an RRset that STARTS with an alias-mode record and holds a second record: "if an RRset contains both, the
+	// ServiceMode records MUST be ignored" and of several aliases one is followed (RFC 9460 2.4.1, 2.4.2) - the result is the one
+	// of the alias alone (of either alias alone when there are two)
+	for _, second := range []string{"service-with-ech", "service-other-target", "alias-to-other", "alias-twice"} {
+		run := func(recs func(name string) []dnsref.RR) string {
+			srv.Reset()
+			srv.Zone = func(name string, t uint16) dohmem.Answer {
+				a4 := func(b byte) dohmem.Answer {
+					return dohmem.Answer{Records: []dnsref.RR{{Name: name, Type: 1, Class: 1, TTL: 60, Fields: []dnsref.Field{{Raw: []byte{10, 5, 0, b}}}}}}
+				}
+				switch {
+				case name == "al2.example" && t == 65:
+					return dohmem.Answer{Records: recs(name)}
+				case name == "al2.example" && t == 1:
+					return a4(1)
+				case name == "pool.example" && t == 65:
+					return dohmem.Answer{Records: []dnsref.RR{{Name: name, Type: 65, Class: 1, TTL: 60, Fields: dnsref.SVCB(1, "", []dnsref.Param{dnsref.ParamECH([]byte{0xec, 2})})}}}
+				case name == "pool.example" && t == 1:
+					return a4(2)
+				case name == "pool2.example" && t == 65:
+					return dohmem.Answer{Records: []dnsref.RR{{Name: name, Type: 65, Class: 1, TTL: 60, Fields: dnsref.SVCB(1, "", []dnsref.Param{dnsref.ParamECH([]byte{0xec, 3})})}}}
+				case name == "pool2.example" && t == 1:
+					return a4(3)
+				case name == "svc9.example" && t == 1:
+					return a4(9)
+				}
+				return dohmem.Answer{}
+			}
+			res, _ := ech.NewResolver("https://doh.test/dns-query")
+			got, err := res.Resolve(context.Background(), "al2.example")
+			return fmt.Sprintf("err=%v %s", err != nil, resultKey(got))
+		}
+		alias := func(name, to string) dnsref.RR {
+			return dnsref.RR{Name: name, Type: 65, Class: 1, TTL: 60, Fields: dnsref.SVCB(0, to, nil)}
+		}
+		var with string
+		admissible := []string{run(func(n string) []dnsref.RR { return []dnsref.RR{alias(n, "pool.example")} })}
+		switch second {
+		case "service-with-ech":
+			with = run(func(n string) []dnsref.RR {
+				return []dnsref.RR{alias(n, "pool.example"), {Name: n, Type: 65, Class: 1, TTL: 60, Fields: dnsref.SVCB(1, "", []dnsref.Param{dnsref.ParamECH([]byte{0xec, 7})})}}
+			})
+		case "service-other-target":
+			with = run(func(n string) []dnsref.RR {
+				return []dnsref.RR{alias(n, "pool.example"), {Name: n, Type: 65, Class: 1, TTL: 60, Fields: dnsref.SVCB(2, "svc9.example", []dnsref.Param{dnsref.ParamPort(8443)})}}
+			})
+		case "alias-to-other":
+			admissible = append(admissible, run(func(n string) []dnsref.RR { return []dnsref.RR{alias(n, "pool2.example")} }))
+			with = run(func(n string) []dnsref.RR { return []dnsref.RR{alias(n, "pool.example"), alias(n, "pool2.example")} })
+		case "alias-twice":
+			with = run(func(n string) []dnsref.RR { return []dnsref.RR{alias(n, "pool.example"), alias(n, "pool.example")} })
+		}
+		oc := "alias first: followed, the rest of the RRset ignored"
+		if !slices.Contains(admissible, with) {
+			oc = "alias first: NOT resolved as the alias alone"
+			r.Violation("alias-with-second-record:"+second, fmt.Sprintf("an RRset that starts with an alias to pool.example and holds a second record (%s) resolves as %s; the alias alone: %v", second, with, admissible), second)
+		}
+		r.Eval("alias-with-second-record:"+second, oc)
+		srv.Zone = z.answer
+	}
 	// a response that answers ANOTHER question than the one asked (its question section names other.example, its records are
 	// other.example's): nothing of it belongs to the name asked; and a record whose owner has the asked name as a label-wise
 	// PREFIX, followed by a label that contains a dot (o.example."x.y"): not the asked name either, and no reason to panic
